@@ -51,14 +51,25 @@ _STATE = {}
 def _one(i):
     prop, analyse, muts, tree, base_keys = (
         _STATE["prop"], _STATE["analyse"], _STATE["muts"], _STATE["tree"], _STATE["base"])
+    own = _STATE.get("own")
     m = muts[i]
+    if own is not None and own is not analyse:
+        # fast path: the property's own rules only (no cross-included analyses);
+        # fall back to the full analysis when they do not report the mutant
+        r = _run_one(prop, own, m, tree, base_keys)
+        if r[0] in ("detected", "skipped"):
+            return (i,) + r
+    return (i,) + _run_one(prop, analyse, m, tree, base_keys)
+
+
+def _run_one(prop, analyse, m, tree, base_keys):
     try:
         text = tree.read(m.rel)
     except core.AnalysisError:
-        return (i, "skipped", "file absent")
+        return ("skipped", "file absent")
     new = m.apply(text)
     if new is None or new == text:
-        return (i, "skipped", "anchor absent")
+        return ("skipped", "anchor absent")
     t2 = tree.with_overlay({m.rel: new})
     chk = core.run_analysis(prop, analyse, t2)
     fresh = [f for f in chk.findings if f.key not in base_keys]
@@ -67,20 +78,20 @@ def _one(i):
     else:
         hit = fresh
     if hit:
-        return (i, "detected", hit[0].text())
+        return ("detected", hit[0].text())
     if chk.errors:
         # an analysis error on a mutant is a fail-closed reaction (exit 2), it
         # is not a silent pass; recorded separately
-        return (i, "failclosed", chk.errors[0][:200])
-    return (i, "missed", "")
+        return ("failclosed", chk.errors[0][:200])
+    return ("missed", "")
 
 
-def run(prop, analyse, mutants, tree, jobs=16, seed=0):
+def run(prop, analyse, mutants, tree, jobs=16, seed=0, own=None):
     muts = list(mutants(tree))
     random.Random(seed).shuffle(muts)
     base = core.run_analysis(prop, analyse, tree)
     base_keys = {f.key for f in base.findings}
-    _STATE.update(prop=prop, analyse=analyse, muts=muts, tree=tree, base=base_keys)
+    _STATE.update(prop=prop, analyse=analyse, muts=muts, tree=tree, base=base_keys, own=own)
     res = []
     if jobs > 1 and len(muts) > 1:
         ctx = mp.get_context("fork")
